@@ -2,7 +2,7 @@
 """Regenerates MANIFEST.json from checks.json (the single source of truth for per-property config)."""
 import json, os, subprocess
 V = os.path.dirname(os.path.abspath(__file__))
-cfg = json.load(open(os.path.join(V, "checks.json")))
+cfg = {n[:-5]: json.load(open(os.path.join(V, "checks.d", n))) for n in sorted(os.listdir(os.path.join(V, "checks.d"))) if n.endswith(".json")}
 baseline = json.load(open("/root/.vp/BASELINE.json"))
 hooks_commits = []
 try:
